@@ -135,6 +135,12 @@ fn sub_threshold<C: Suite>(
             Err(e) => ctx.count(&format!("sign_refused/{}", err_name(&e))),
             Ok(_) => ctx.viol("signer-accepts-sub-threshold-package", "", d("sign returned Ok for <t commitments")),
         }
+        for (vname, r) in C::api_sign_variants(&pkg, &nonces[id], &grp.kps[id]) {
+            match r {
+                Err(e) => ctx.count(&format!("sign_refused/{vname}/{}", err_name(&e))),
+                Ok(_) => ctx.viol("signer-accepts-sub-threshold-package", vname, d("the crate's further signing entry point returned Ok for <t commitments")),
+            }
+        }
     }
     // (a') the signer's key package after a trip through storage that lost a field: whatever still decodes with the
     // holder's identifier and share must refuse exactly like the original (a missing threshold is not a licence to sign)
@@ -214,6 +220,20 @@ fn sub_threshold<C: Suite>(
                 }
             }
             Ok(_) => ctx.viol("coordinator-accepts-sub-threshold", mname, d("aggregate returned Ok for <t shares with honest public key package")),
+        }
+    }
+    // (b') the same refusal through every aggregation entry point of the ciphersuite crate itself
+    let mut crate_entries = vec![("aggregate", C::api_aggregate(&pkg, &shares, &grp.pkp))];
+    crate_entries.extend(C::api_aggregate_variants(&pkg, &shares, &grp.pkp));
+    for (vname, r) in crate_entries {
+        match r {
+            Err(e) => {
+                ctx.count(&format!("aggregate_refused/crate/{vname}/{}", err_name(&e)));
+                if matches!(e, frost_core::Error::InvalidSignature | frost_core::Error::InvalidSignatureShare { .. }) {
+                    ctx.viol("coordinator-threshold-check-bypassed", &format!("crate/{vname}"), d("the crate's aggregation entry point, given <t shares and the honest public key package, failed only at signature verification"));
+                }
+            }
+            Ok(_) => ctx.viol("coordinator-accepts-sub-threshold", &format!("crate/{vname}"), d("the crate's aggregation entry point returned Ok for <t shares with honest public key package")),
         }
     }
     // lying coordinator: thresholds lowered / absent, full and restricted verifying-share maps
